@@ -9,7 +9,7 @@ coefficient dictionaries are compared; bookkeeping such as num_ancillas or the l
 """
 import warnings
 
-from .common import (clause, Fail, cls_of, LABELS, INT_COEFS, gen_models, snapshot, close, MODEL_TYPES, DEG2_TYPES,
+from .common import (Skip, clause, Fail, cls_of, LABELS, INT_COEFS, gen_models, snapshot, close, MODEL_TYPES, DEG2_TYPES,
                      labels_for)
 from .c02 import RELS, add_constraint, true_range, sum_enclosure, anc_estimate, _to_bool, _special_polys
 from .c03 import to_spin
@@ -113,6 +113,19 @@ def commute(case, build, what="model", post=None):
             return r
         if snapshot(S) != snap:
             return Fail("%s: subs changed the model it was called on" % what, key="subs-mutated")
+    # subs leaves the original unchanged -- also afterwards: editing the substituted model (terms, and one more
+    # recorded constraint of every kind it has) must not show on the receiver, and vice versa
+    sub2 = do_subs(S, case)
+    with warnings.catch_warnings():
+        warnings.simplefilter("ignore")
+        for a, b, who in ((sub2, S, "substituted model"), (S, sub2, "receiver")):
+            other = snapshot(b)
+            zz = ("__zz",) if hasattr(a, "mapping") else (97,)
+            a[zz] += 1
+            for kind in list(getattr(a, "_constraints", {})):
+                getattr(a, "add_constraint_%s_zero" % kind)({zz: 1}, lam=0)
+            if snapshot(b) != other:
+                return Fail("%s: editing the %s after subs changed the other side" % (what, who), key="subs-aliases-receiver")
     return None
 
 
